@@ -274,6 +274,7 @@ func main() {
 			encodeValue(o, "encode.slice", c01x.GenOfType(r, "sl:"+ty, 2), rep%2 == 0, c01x.GenKey(r))
 		}
 	}
+	embeddedCases(o)
 	m := o.N(2000, 20)
 	for i := 0; i < m; i++ {
 		var g *c01x.GV
